@@ -213,13 +213,19 @@ def batchWidth (concurrency : Int) : Nat := if concurrency > 0 then poolWorkers 
 
 /-! ### probe runs
 
-What the harness observes when it runs the configured node. Step-installed functions always
-succeed; the harness's own probe exec function (tag `probeExec`) fails on every attempt (for a
-batch: on every attempt of item 0 only), which makes the retry budget, the fallback and the
-stop/continue policy visible. -/
+What the harness observes when it runs the configured node. Step-installed prep, exec and post
+functions always succeed; the harness's own probe exec function (tag `probeExec`) fails on every
+attempt (for a batch: on every attempt of item 0 only), which makes the retry budget, the fallback
+and the stop/continue policy visible. A step-installed FALLBACK function records that it ran and then
+fails (returns an error) iff its tag is odd (`fbFails`): only a failing fallback tells "the new
+function replaced the old one" from "the new function was chained in front of the old one". -/
 
 def probeExec : Nat := 900
 def probePrep : Nat := 901
+
+/-- harness convention: the fallback function installed by a step with tag `t` returns an error iff
+    `t` is odd, and a value otherwise (it records that it ran in both cases) -/
+def fbFails (g : Fn) : Bool := g.tag % 2 == 1
 
 structure RunObs where
   prep : Option Nat     -- tag of the prep function that ran
@@ -234,7 +240,10 @@ def tagOf (f : Option Fn) : Option Nat := f.map (·.tag)
 
 /-- `flyt.Run` on a `*NodeBuilder` (flyt.go:681-761), reduced to which user functions are called
     how often: prep once; exec until success or `maxRetries` attempts; on exhaustion the fallback
-    (user function, or `BaseNode.ExecFallback` which returns the error ⇒ no post); post once. -/
+    (user function, or `BaseNode.ExecFallback` which returns the error); if the fallback returns an
+    error too (no user fallback, or a user fallback with `fbFails`) the run fails with
+    "exec failed after … retries" and post is never called ("Handle exec failure" in `Run`);
+    otherwise post once. -/
 def runNode (n : Node) : RunObs :=
   let budget := n.base.maxRetries.toNat
   let okOut := if n.postFunc.isSome then "done" else "default"
@@ -245,8 +254,12 @@ def runNode (n : Node) : RunObs :=
       { prep := tagOf n.prepFunc, exec := none, fb := none, post := tagOf n.postFunc, calls := [0], out := okOut }
     else if f.tag = probeExec then
       match n.execFallbackFunc with
-      | some g => { prep := tagOf n.prepFunc, exec := some f.tag, fb := some g.tag, post := tagOf n.postFunc,
-                    calls := [budget], out := okOut }
+      | some g =>
+        if fbFails g then
+          { prep := tagOf n.prepFunc, exec := some f.tag, fb := some g.tag, post := none, calls := [budget], out := "err" }
+        else
+          { prep := tagOf n.prepFunc, exec := some f.tag, fb := some g.tag, post := tagOf n.postFunc,
+            calls := [budget], out := okOut }
       | none => { prep := tagOf n.prepFunc, exec := some f.tag, fb := none, post := none, calls := [budget], out := "err" }
     else
       { prep := tagOf n.prepFunc, exec := some f.tag, fb := none, post := tagOf n.postFunc, calls := [1], out := okOut }
@@ -254,10 +267,15 @@ def runNode (n : Node) : RunObs :=
 /-- `runBatch` on a `*BatchNode` (batch.go:156-255, 304-344) whose batch prep function, if any,
     returns three items. Without a batch prep function `CustomNode.Prep` → `BaseNode.Prep` returns
     nil, i.e. no items: only post runs. Item 0 fails on every attempt when the exec function is the
-    probe; a batch builder cannot install a fallback function, but the field is honoured if set.
-    In stop mode the later items are skipped iff at most one item is worked on at a time
-    (sequential loop, or a one-worker pool: the flag is set before the next task starts); for
-    wider pools the harness holds item 0 back until all three items have started. -/
+    probe; a batch builder cannot install a fallback function, but the field is honoured if set:
+    `runExecWithRetries` (batch.go:304-344) calls it once per failing item, i.e. for item 0 only.
+    Item 0's slot holds an error iff there is no user fallback or the user fallback fails
+    (`fbFails`); a failing item never fails the batch run itself — its error is stored in the
+    item's result slot and post is called all the same (end of `runBatch`), so `post` and `out` do
+    not depend on the fallback. In stop mode an error in item 0's slot makes the later items be
+    skipped iff at most one item is worked on at a time (sequential loop, or a one-worker pool: the
+    flag is set before the next task starts); for wider pools the harness holds item 0 back until
+    all three items have started. -/
 def runBatch (n : Node) : RunObs :=
   let budget := n.base.maxRetries.toNat
   let out := if n.batchPostFunc.isSome then "done" else "default"
@@ -270,11 +288,13 @@ def runBatch (n : Node) : RunObs :=
       if budget = 0 then
         { prep := some p.tag, exec := none, fb := none, post := tagOf n.batchPostFunc, calls := [0, 0, 0], out := out }
       else if f.tag = probeExec then
+        -- would an error in item 0's slot keep items 1 and 2 from being executed?
+        let stopped := getBatchErrorHandling n == "stop" && decide (batchWidth n.base.batchConcurrency ≤ 1)
         match n.execFallbackFunc with
-        | some g => { prep := some p.tag, exec := some f.tag, fb := some g.tag, post := tagOf n.batchPostFunc,
-                      calls := [budget, 1, 1], out := out }
+        | some g =>
+          { prep := some p.tag, exec := some f.tag, fb := some g.tag, post := tagOf n.batchPostFunc,
+            calls := if fbFails g && stopped then [budget, 0, 0] else [budget, 1, 1], out := out }
         | none =>
-          let stopped := getBatchErrorHandling n == "stop" && decide (batchWidth n.base.batchConcurrency ≤ 1)
           { prep := some p.tag, exec := some f.tag, fb := none, post := tagOf n.batchPostFunc,
             calls := if stopped then [budget, 0, 0] else [budget, 1, 1], out := out }
       else
